@@ -501,6 +501,20 @@ class Report:
         return rc
 
 
+class Watch:
+    """remembers input arrays of a call; changed() tells whether the callee wrote into them"""
+
+    def __init__(self, *arrays):
+        import numpy as np
+
+        self.np = np
+        self.arrays = [a for a in arrays if isinstance(a, np.ndarray)]
+        self.copies = [a.copy() for a in self.arrays]
+
+    def changed(self):
+        return any(not self.np.array_equal(a, b, equal_nan=(a.dtype.kind == "f")) for a, b in zip(self.arrays, self.copies))
+
+
 def assert_repo():
     """the code under observation must be /repo's working tree"""
     sys.path.insert(0, str(REPO))
